@@ -82,10 +82,17 @@ class Counter(object):
         mod._c04_c, mod._c04_t, mod._c04_a, mod._c04_o, mod._c04_n, mod._c04_cc = c, t, a, o, nn, cc
 
     # -------- converted side
+    def unpatch(self):
+        for agmod, name, orig in getattr(self, '_saved', []):
+            setattr(agmod, name, orig)
+        self._saved = []
+
     def patch(self, agmod):
         n = self.n
+        self._saved = getattr(self, '_saved', [])
         for name, kind in OPS.items():
             orig = getattr(agmod, name)
+            self._saved.append((agmod, name, orig))
 
             def make(orig, kind):
                 def w(*args, **kw):
